@@ -355,7 +355,9 @@ def gen_case(rng, rule, late_ok=True, size=12):
         loggees = []
         for t, si in enumerate(idx):
             keys = [k for k, _ in shares[si]["data"]]
-            sel = rng.choice([[], keys[:1], keys[-1:], keys, list(reversed(keys)), keys[:1] + [5]])
+            # incl. selections naming a field the share does not have (yet), listed first / in the middle / last
+            sel = rng.choice([[], keys[:1], keys[-1:], keys, list(reversed(keys)), keys[:1] + [5],
+                              [5] + keys, keys[:1] + [5] + keys[1:], [5] + list(reversed(keys))])
             loggees.append([t, si, sel])
     ops = []
     for _ in range(rng.randint(0, 3)):
@@ -399,7 +401,7 @@ def rnd_write(rng, shares, rule):
         return ["append", 0, 0, rng.randint(0, 9)]
     keys = [k for k, v in shares[s]["data"] if not isinstance(v, (list, dict))]
     if rng.random() < 0.15:
-        keys = keys + [rng.randint(3, 4)]     # creates a new field
+        keys = keys + [rng.randint(3, 5)]     # creates a new field (5 = the one some selections name)
     if not keys:
         keys = [0] if not shares[s]["data"] else []
     kvs = [[k, rng.randint(0, 3)] for k in rng.sample(keys, rng.randint(0, len(keys)))]
@@ -417,6 +419,24 @@ def exhaustive_cases(depth):
             ops = [["start"]] + [alphabet[i] for i in body] + [["stop"]]
             out.append({"shares": [{"data": [[0, 1]], "stamped": True}], "rule": rule,
                         "loggees": [[0, 0, []]], "pre": None, "ops": ops})
+    return out
+
+
+def missing_field_cases(depth):
+    """rules change / always / update on a share {f0, f1} with a selection naming f5, which does not exist at START,
+    before / between / after the existing fields; every sequence of `depth` body ops over {tick, run, change f0,
+    change f1, write f1, create f5}"""
+    out = []
+    alphabet = [["tick"], ["run"], ["change", 0, [[0, 2]]], ["change", 0, [[1, 3]]], ["write", 0, [[1, 4]]],
+                ["write", 0, [[5, 9]]]]
+    for rule in ("change", "always", "update"):
+        for sel in ([5, 0], [0, 5, 1], [5, 1, 0], [0, 1, 5]):
+            if rule != "change" and sel != [0, 5, 1]:
+                continue
+            for body in itertools.product(range(len(alphabet)), repeat=depth):
+                ops = [["start"]] + [alphabet[i] for i in body] + [["stop"]]
+                out.append({"shares": [{"data": [[0, 1], [1, 1]], "stamped": True}], "rule": rule,
+                            "loggees": [[0, 0, sel]], "pre": None, "ops": ops})
     return out
 
 
@@ -482,6 +502,8 @@ def run(ctx):
     for rule in RULES:
         for _ in range(ctx.n(150, 2000)):
             cases.append(("rnd", gen_case(ctx.rng, rule)))
+    for c in missing_field_cases(ctx.n(2, 4)):
+        cases.append(("missing", c))
     for c in streak_bursts(ctx.rng, ctx.n(12, 150)):
         cases.append(("burst", c))
     cases.append(("witness", WITNESS))
